@@ -291,9 +291,7 @@ func (ms *Modules) process() []error {
 		mods = append(mods, m)
 	}
 	for _, m := range mods {
-		if err := ms.include(m); err != nil {
-			errs = append(errs, err)
-		}
+		errs = append(errs, ms.include(m)...)
 	}
 
 	// Resolve identities before resolving typedefs, otherwise when we resolve a
@@ -441,25 +439,27 @@ func (ms *Modules) Process() []error {
 }
 
 // include resolves all the include and import statements for m.  It returns
-// an error if m, or recursively, any of the modules it includes or imports,
-// reference a module that cannot be found.
-func (ms *Modules) include(m *Module) error {
+// an error for every module that m, or recursively, any of the modules it
+// includes or imports, references but that cannot be found.  Everything that
+// can be found is bound, so that the outcome does not depend on the order in
+// which the modules are visited.
+func (ms *Modules) include(m *Module) []error {
 	if ms.includes[m] {
 		return nil
 	}
 	ms.includes[m] = true
 
+	var errs []error
 	// First process any includes in this module.
 	for _, i := range m.Include {
 		im := ms.FindModule(i)
 		if im == nil {
-			return fmt.Errorf("no such submodule: %s", i.Name)
-		}
-		// Process the include statements in our included module.
-		if err := ms.include(im); err != nil {
-			return err
+			errs = append(errs, fmt.Errorf("no such submodule: %s", i.Name))
+			continue
 		}
 		i.Module = im
+		// Process the include statements in our included module.
+		errs = append(errs, ms.include(im)...)
 	}
 
 	// Next process any imports in this module.  Imports are used
@@ -467,16 +467,14 @@ func (ms *Modules) include(m *Module) error {
 	for _, i := range m.Import {
 		im := ms.FindModule(i)
 		if im == nil {
-			return fmt.Errorf("no such module: %s", i.Name)
+			errs = append(errs, fmt.Errorf("no such module: %s", i.Name))
+			continue
 		}
-		// Process the include statements in our included module.
-		if err := ms.include(im); err != nil {
-			return err
-		}
-
 		i.Module = im
+		// Process the include statements in our included module.
+		errs = append(errs, ms.include(im)...)
 	}
-	return nil
+	return errs
 }
 
 func (ms *Modules) getEntryCache(n Node) *Entry {
